@@ -7,9 +7,17 @@ for f in sorted(glob.glob('/verif/seeded/*/meta.json')):
     sid = m.get('id', os.path.basename(os.path.dirname(f)))
     v = m.get('verified', {})
     checks = m.get('checks', [])
-    caught = [f"{c['check']} ({c['tier']})" for c in checks if c['verdict'] == 'CAUGHT']
-    missed = [f"{c['check']} ({c['tier']})" for c in checks if c['verdict'] != 'CAUGHT']
-    rows.append((sid, m['property'], m.get('summary', '').split('. ')[0][:150], m.get('needs_to_manifest', '')[:170], 'yes' if v.get('confirmed') else 'NO', ', '.join(caught) or '–', ', '.join(missed) or '–'))
+    def fmt(sel):
+        by = {}
+        for c in checks:
+            if sel(c):
+                by.setdefault((c['check'], c['tier']), []).append(c.get('seed', 1))
+        own = m['property']
+        keys = sorted(by, key=lambda k: (k[0] != own, k[0], k[1]))
+        return ', '.join(f"{k[0]} ({k[1]}, seed{'s' if len(by[k]) > 1 else ''} {','.join(str(x) for x in sorted(set(by[k])))})" for k in keys)
+    caught = fmt(lambda c: c['verdict'] == 'CAUGHT')
+    missed = fmt(lambda c: c['verdict'] != 'CAUGHT')
+    rows.append((sid, m['property'], m.get('summary', '').split('. ')[0][:150], m.get('needs_to_manifest', '')[:170], 'yes' if v.get('confirmed') else 'NO', caught or '–', missed or '–'))
 print('| id | breaks | change | needs to manifest | confirmed | caught by | not caught by |')
 print('|---|---|---|---|---|---|---|')
 for r in rows:
